@@ -5,6 +5,7 @@ package dnsforward
 // C16 — ClientIDs come only from a well-formed DoH path or server-name label.
 //
 //vx:overlay internal/dnsforward/zz_vx_c16.go
+//vx:native
 //vx:entry vxC16Path reach=path-id,path-noid,path-error
 //vx:entry vxC16SNI reach=sni-id,sni-noid,sni-error,sni-plain
 //vx:entry vxC16HostHeader reach=hh-id,hh-noid
